@@ -6387,11 +6387,12 @@ class QueryResult(object):
     def __reversed__(self):
         return reversed(self._get_items())
     def reverse(self):
-        self._get_items().reverse()
+        self._items = self._get_items()[::-1]  # the fetched list is shared with the session result cache
     def sort(self, *args, **kwargs):
-        self._get_items().sort(*args, **kwargs)
+        self._items = sorted(self._get_items(), *args, **kwargs)
     def shuffle(self):
-        shuffle(self._get_items())
+        self._items = items = list(self._get_items())
+        shuffle(items)
     @cut_traceback
     def show(self, width=None, stream=None):
         if stream is None:
